@@ -201,30 +201,44 @@ fn add_nodes_step(kind: u8) {
     let pre_existing = if st0 == NodeStatus::Bad { None } else { Some(st0) };
     crate::bucket::verif::set_slot(&mut t.buckets[0], 7, existing);
     let router = SocketAddr::from((std::net::Ipv4Addr::new(192, 0, 2, 1), 6881));
-    if kind == 2 {
-        // (instance not registered: the std HashSet behind `routers` did not terminate, F4/F17)
+    // a second router address (other port on the same IP is NOT a router address)
+    let router2 = SocketAddr::from((std::net::Ipv4Addr::new(192, 0, 2, 2), 6881));
+    let same_ip_other_port = SocketAddr::from((std::net::Ipv4Addr::new(192, 0, 2, 1), 6882));
+    if kind == 2 || kind == 6 || kind == 7 {
+        // `routers` is the linear-scan stand-in of rt.rs under cfg(kani) (hook; std HashSet is not tractable, F4/F17)
+        t.routers.insert(router2);
         t.routers.insert(router);
     }
     let (responder, responder_key) = if kind == 3 {
         (Node::as_good(crate::verif::id_with_prefix(0, 57), concrete_addr_v4(57)), 58usize)
+    } else if kind == 6 {
+        // the responder itself answers from a router address: it must not be admitted either
+        (Node::as_good(crate::verif::id_with_prefix(0, 59), router), 60usize)
     } else {
         (Node::as_good(e_id, e_addr), E_KEY as usize + 1)
     };
     let name = match kind {
         1 => NodeHandle::new(NodeId::from([0u8; 20]), concrete_addr_v4(50)),
-        2 => NodeHandle::new(crate::verif::id_with_prefix(0, 52), router),
+        2 => NodeHandle::new(crate::verif::id_with_prefix(0, 52), if kani::any::<bool>() { router } else { router2 }),
+        7 => NodeHandle::new(crate::verif::id_with_prefix(0, 52), same_ip_other_port),
         3 => NodeHandle::new(e_id, e_addr),
         5 => NodeHandle::new(crate::verif::id_with_prefix(0, 55), e_addr),
         _ => NodeHandle::new(crate::verif::id_with_prefix(0, 54), concrete_addr_v4(54)),
     };
     let names = [name];
     t.add_nodes(responder, &names);
-    let after = survey(&t, if kind == 2 { Some(router) } else { None });
-    assert!(after[responder_key] == Some(NodeStatus::Good), "C12: the responder itself is not reported good");
+    let after = survey(&t, if kind == 2 || kind == 6 || kind == 7 { Some(router) } else { None });
+    if kind == 6 {
+        assert!(after[responder_key].is_none(), "C12: a responder on a router address was admitted");
+    } else {
+        assert!(after[responder_key] == Some(NodeStatus::Good), "C12: the responder itself is not reported good");
+    }
     match kind {
         0 => assert!(after[55] == Some(NodeStatus::Questionable), "C12: a node merely named in a response is not admitted as questionable"),
         5 => assert!(after[56] == Some(NodeStatus::Questionable), "C12: a second id named on the responder's address is not admitted as questionable"),
         2 => assert!(after[53].is_none(), "C12: a router address was admitted by hearsay"),
+        6 => assert!(after[55] == Some(NodeStatus::Questionable), "C12: a node named by a router's response is not admitted as questionable"),
+        7 => assert!(after[53] == Some(NodeStatus::Questionable), "C12: a node sharing only the IP of a router is refused"),
         3 => match (pre_existing, after[E_KEY as usize + 1]) {
             (Some(a), Some(b)) => assert!(a == b, "C12: hearsay changed the standing of a stored node"),
             (None, Some(b)) => assert!(b == NodeStatus::Questionable, "C12: a dropped node named again is reported good"),
@@ -261,6 +275,45 @@ fn c12_add_nodes_own_id() {
     add_nodes_step(1);
 }
 
+
+#[kani::proof]
+#[kani::unwind(66)]
+fn c12_add_nodes_router_address_named() {
+    add_nodes_step(2);
+}
+
+#[kani::proof]
+#[kani::unwind(66)]
+fn c12_add_nodes_router_as_responder() {
+    add_nodes_step(6);
+}
+
+#[kani::proof]
+#[kani::unwind(66)]
+fn c12_add_nodes_router_ip_other_port() {
+    add_nodes_step(7);
+}
+
+/// Environment validation: the linear-scan stand-in for `routers` obeys the set laws btdht uses
+/// (membership after insertion, no false positives, duplicates ignored).
+#[kani::proof]
+#[kani::unwind(6)]
+fn c12_router_set_standin_laws() {
+    let a = SocketAddr::from((std::net::Ipv4Addr::from(kani::any::<[u8; 4]>()), kani::any::<u16>()));
+    let b = SocketAddr::from((std::net::Ipv4Addr::from(kani::any::<[u8; 4]>()), kani::any::<u16>()));
+    let probe = SocketAddr::from((std::net::Ipv4Addr::from(kani::any::<[u8; 4]>()), kani::any::<u16>()));
+    let mut s: crate::verif::vset::HashSet<SocketAddr> = Default::default();
+    assert!(!s.contains(&probe) && s.is_empty(), "verif: empty stand-in set contains an address");
+    let first = s.insert(a);
+    let second = s.insert(b);
+    assert!(first && second == (a != b), "verif: stand-in set insert result wrong");
+    assert!(s.contains(&probe) == (probe == a || probe == b), "verif: stand-in set membership differs from set semantics");
+    assert!(s.len() == if a == b { 1 } else { 2 }, "verif: stand-in set keeps duplicates");
+    let t: crate::verif::vset::HashSet<SocketAddr> = s.iter().copied().collect();
+    assert!(t.contains(&probe) == s.contains(&probe), "verif: stand-in set collect/iter loses an address");
+    kani::cover!(a == b, "duplicate insertion");
+    kani::cover!(probe == b && a != b, "probe hits the second element");
+}
 
 #[kani::proof]
 #[kani::unwind(66)]
@@ -446,4 +499,147 @@ fn c09_closest_setup_full_table() {
     let idx: usize = (kani::any::<u8>() % 160) as usize;
     assert!(bucket_iterator(&t.buckets, idx).is_some(), "C09: a bucket of a full table is not read by its index");
     kani::cover!(true, "end of harness reached");
+}
+
+// ---------------------------------------------------------------------------------------------
+// C08 (table level): one `add_node` that makes the last bucket split.
+//
+// Table: local id 0..0, 2 buckets with spare capacity in the `Vec<Bucket>` (no reallocation on the
+// split's two pushes). Bucket 0 is empty; bucket 1 (last, covers the local id) is full: 8 concrete
+// identities with ideal indices 1,1,2,3,6,61,121,2. `all_good` (symbolic) makes the eight all good
+// or all questionable; the newcomer is good or questionable (symbolic) with an ideal index chosen
+// symbolically from {1, 2, 6} - so that after the split it belongs to the new sorted bucket 1 or the
+// new last bucket 2. Whenever the bucket rejects the newcomer (no strictly worse node), the split
+// must happen, keep all eight (same standing), place everyone by prefix, and admit the newcomer.
+// ---------------------------------------------------------------------------------------------
+
+fn split_step(deep: bool) {
+    clock::start_fixed();
+    let all_good: bool = kani::any();
+    let new_good: bool = kani::any();
+    let sel: u8 = kani::any::<u8>() % 3;
+    let mut t = RoutingTable::new(NodeId::from([0u8; 20]));
+    let mut v: Vec<Bucket> = Vec::with_capacity(8);
+    v.push(Bucket::new());
+    let mut last = Bucket::new();
+    // deep: everybody shares at least 3 bits with the local id, so the first split separates nobody
+    // and a second (and third) split is needed
+    const IDEAL: [usize; 8] = [1, 1, 2, 3, 6, 61, 121, 2];
+    const IDEAL_DEEP: [usize; 8] = [3, 4, 3, 3, 6, 61, 121, 4];
+    let mut j = 0;
+    while j < 8 {
+        let ideal = if deep { IDEAL_DEEP[j] } else { IDEAL[j] };
+        let id = crate::verif::id_with_prefix(ideal, slot_key(1, j));
+        let addr = concrete_addr_v4(slot_key(1, j));
+        let n = if all_good { Node::as_good(id, addr) } else { Node::as_questionable(id, addr) };
+        crate::bucket::verif::set_slot(&mut last, j, n);
+        j += 1;
+    }
+    v.push(last);
+    t.buckets = v;
+    let new_ideal = if deep {
+        match sel { 0 => 3, 1 => 4, _ => 6 }
+    } else {
+        match sel { 0 => 1, 1 => 2, _ => 6 }
+    };
+    let new_id = crate::verif::id_with_prefix(new_ideal, 40);
+    let new_addr = concrete_addr_v4(40);
+    let newcomer = if new_good { Node::as_good(new_id, new_addr) } else { Node::as_questionable(new_id, new_addr) };
+    t.add_node(newcomer);
+    let after = survey(&t, None);
+    // the eight are all still there with their standing: a questionable bucket offered a good node
+    // loses exactly one (strictly worse) node instead of splitting
+    let replaced = !all_good && new_good;
+    let mut kept = 0;
+    let mut j = 0;
+    while j < 8 {
+        let key = slot_key(1, j) as usize + 1;
+        if let Some(s) = after[key] {
+            assert!(s == if all_good { NodeStatus::Good } else { NodeStatus::Questionable }, "C08: a split changed the standing of a stored node");
+            kept += 1;
+        }
+        j += 1;
+    }
+    if replaced {
+        assert!(kept == 7, "C08: offering a better node removed more or less than one worse node");
+        assert!(t.buckets.len() == 2, "C08: the bucket split although a worse node could be replaced");
+    } else {
+        assert!(kept == 8, "C08: a node of equal or better standing was lost when its bucket split");
+        assert!(t.buckets.len() >= 3, "C08: the bucket covering the local id did not split although it was full");
+    }
+    assert!(after[41] == Some(if new_good { NodeStatus::Good } else { NodeStatus::Questionable }),
+            "C08: the offered node was not admitted although the split made room");
+    kani::cover!(!replaced && sel == 0, "split, newcomer goes to the new sorted bucket");
+    kani::cover!(!replaced && sel == 2, "split, newcomer goes to the new last bucket");
+    kani::cover!(replaced, "no split: worse node replaced");
+    std::mem::forget(t);
+}
+
+#[kani::proof]
+#[kani::unwind(66)]
+fn c08_table_split_step() {
+    split_step(false);
+}
+
+#[kani::proof]
+#[kani::unwind(66)]
+fn c08_table_split_twice() {
+    split_step(true);
+}
+
+// ---------------------------------------------------------------------------------------------
+// C08 (table level, no split): one `RoutingTable::add_node` whose target is a full *sorted* bucket
+// (bucket 0 of a 2-bucket table: it does not cover the local id and can never split). Seven slots
+// hold good nodes, slot 5 holds a node of arbitrary standing; the newcomer is good or questionable.
+// The table must behave exactly like the bucket rule: a strictly worse node is replaced by the
+// newcomer, otherwise nothing changes; the table never grows.
+// ---------------------------------------------------------------------------------------------
+#[kani::proof]
+#[kani::unwind(66)]
+fn c08_table_add_full_sorted_bucket() {
+    clock::start_fixed();
+    let mut t = RoutingTable::new(NodeId::from([0u8; 20]));
+    let mut v: Vec<Bucket> = Vec::with_capacity(2);
+    let mut b0 = Bucket::new();
+    let mut j = 0;
+    while j < 8 {
+        let id = crate::verif::id_with_prefix(0, slot_key(0, j));
+        let addr = concrete_addr_v4(slot_key(0, j));
+        let n = if j == 5 { symbolic_slot_with(id, addr, true) } else { Node::as_good(id, addr) };
+        crate::bucket::verif::set_slot(&mut b0, j, n);
+        j += 1;
+    }
+    v.push(b0);
+    v.push(Bucket::new());
+    t.buckets = v;
+    let before = survey(&t, None);
+    let weak = before[slot_key(0, 5) as usize + 1];
+    let new_good: bool = kani::any();
+    let new_id = crate::verif::id_with_prefix(0, 40);
+    let new_addr = concrete_addr_v4(40);
+    t.add_node(if new_good { Node::as_good(new_id, new_addr) } else { Node::as_questionable(new_id, new_addr) });
+    let after = survey(&t, None);
+    assert!(t.buckets.len() == 2, "C08: a bucket that does not cover the local id was split");
+    let new_rank = if new_good { 2 } else { 1 };
+    let weak_rank = match weak { Some(NodeStatus::Good) => 2, Some(NodeStatus::Questionable) => 1, _ => 0 };
+    let mut k = 0;
+    while k < 64 {
+        let is_weak = k == slot_key(0, 5) as usize + 1;
+        if k == 41 {
+            if weak_rank < new_rank {
+                assert!(after[k] == Some(if new_good { NodeStatus::Good } else { NodeStatus::Questionable }), "C08: the offered node was not admitted although a worse node (or a free slot) exists in its bucket");
+            } else {
+                assert!(after[k].is_none(), "C08: a full bucket of equal-or-better nodes admitted a newcomer");
+            }
+        } else if is_weak && weak_rank < new_rank {
+            assert!(after[k].is_none(), "C08: the offered node was admitted without replacing the worse node");
+        } else {
+            assert!(after[k] == before[k], "C08: offering a node removed or changed a node of equal or better standing");
+        }
+        k += 1;
+    }
+    kani::cover!(weak_rank == 1 && new_good, "questionable node replaced by a good newcomer");
+    kani::cover!(weak_rank == 2, "full bucket of good nodes");
+    kani::cover!(weak_rank == 0, "bad / free slot taken");
+    std::mem::forget(t);
 }
